@@ -275,6 +275,19 @@ def r_c11_backwards_between_25_and_26_hours(s4, repo, scratch):
             'observed': 'as expected' if not bad else 'for %s expected %s, got %s' % bad, 'failed': bool(bad)}
 
 
+def r_c01_directory_sources_in_sorted_order(s4, repo, scratch):
+    """the files of a walked directory are sources in sorted path order: ties go z (named first), then a, b, c"""
+    d = os.path.join(scratch, 'c01_dir'); os.makedirs(d, exist_ok=True)
+    z = os.path.join(scratch, 'c01_z.log')
+    for path, n in [(z, 'Z')] + [(os.path.join(d, '%s.log' % c), c.upper()) for c in 'abc']:
+        open(path, 'w').write('2024-01-01T00:00:00+00:00 %s1\n2024-01-01T00:00:01+00:00 %s2\n' % (n, n))
+    rc, out, err = run_s4(s4, ['--color', 'never', z, d])
+    got = [l.split()[1].decode() for l in out.split(b'\n') if l.strip()]
+    want = ['Z1', 'A1', 'B1', 'C1', 'Z2', 'A2', 'B2', 'C2']
+    return {'name': 'C01.directory_sources_in_sorted_order', 'input': d, 'how_made': 'z.log and a directory holding a.log, b.log, c.log, all with the same two instants',
+            'cmd': '%s --color never %s %s' % (s4, z, d), 'expected': ' '.join(want), 'observed': ' '.join(got), 'failed': got != want}
+
+
 def r_c03_evtx_window(s4, repo, scratch):
     """an event log stored out of order: every record with creation time <= B is printed under --dt-before B"""
     f = os.path.join(repo, 'logs/programs/evtx/Microsoft-Windows-Kernel-PnP%4Configuration.evtx')
@@ -617,7 +630,7 @@ RECIPES = {
     'C02': [r_c02_continuation_at_block_boundary, r_c02_mixed_notation_first_message],
     'C04': [r_c04_instants, r_c04_fractions, r_c04_month_abbreviation_with_dot],
     'C10': [r_c03_evtx_window],
-    'C01': [r_c01_tie_order, r_c01_chronological, r_c01_submillisecond, r_c01_yearless_rollover_at_first_message, r_c01_stdin_paths_position],
+    'C01': [r_c01_tie_order, r_c01_chronological, r_c01_submillisecond, r_c01_yearless_rollover_at_first_message, r_c01_stdin_paths_position, r_c01_directory_sources_in_sorted_order],
     'C06': [r_c01_tie_order, r_c01_chronological, r_c01_submillisecond],
     'C13': [r_c13_field_order_fixedstruct, r_c13_align_widest_printed, r_c13_evtx_prepend_file_only, r_c13_prependdate_lines_in_parts],
     'C03': [r_c03_journal_before_inclusive, r_c03_evtx_window, r_c03_yearless_tie_at_after, r_c14_relative_to_program_start],
